@@ -14,7 +14,7 @@ corr():        model <-> implementation: the Lean model (KawinV.SaveLoad with th
                models with recording on / off / switched off / removed; StrengthModel; the dedicated recorded-PSD file);
                untrained surrogate getters against the thermodynamics call of the same quantity; trained surrogates at
                their training points; surrogates rebuilt from their JSON file."""
-import contextlib, inspect, io, json, math, os, shutil, tempfile, traceback, warnings
+import contextlib, inspect, io, json, math, os, re, shutil, tempfile, traceback, warnings
 import numpy as np
 import vlib
 from vlib import Result, enc_list, f2b, b2f, Toks, close
@@ -332,7 +332,7 @@ class RecTherm:
     def __init__(self, n):
         self.numElements = n
         self.elements = ['E%d' % i for i in range(n)]
-        self.phases = ['MATRIX', 'PREC']
+        self.phases = ['MATRIX', 'PREC1', 'PREC2', 'PREC3']      # several precipitate phases: a named phase need not be the default one
         self.calls = []
 
     def __getattr__(self, name):
@@ -381,6 +381,188 @@ def fallthrough_table(cls, nel):
     return table, passes
 
 
+# ============================================================================ argument forwarding of the untrained branch
+def thermo_class(cls):
+    """the thermodynamics class a surrogate class is written for (annotation of its constructor argument)"""
+    vlib.use_repo()
+    par = inspect.signature(cls.__init__).parameters.get('thermodynamics')
+    if par is not None and inspect.isclass(par.annotation):
+        return par.annotation
+    from kawin.thermo import GeneralThermodynamics
+    return GeneralThermodynamics
+
+
+def getter_spec(cls, g):
+    """named parameters (name, default) of the surrogate getter, whether it takes *args / **kwargs, the named parameters of the
+    thermodynamics method of the same name, and the further keyword arguments a caller can hand over through **kwargs"""
+    named, star_a, star_k = [], False, False
+    for p in list(inspect.signature(getattr(cls, g)).parameters.values())[1:]:
+        if p.kind == p.VAR_POSITIONAL:
+            star_a = True
+        elif p.kind == p.VAR_KEYWORD:
+            star_k = True
+        else:
+            named.append((p.name, p.default))
+    tm = getattr(thermo_class(cls), g, None)
+    tsig = None
+    if tm is not None:
+        tsig = [(p.name, p.default) for p in list(inspect.signature(tm).parameters.values())[1:]
+                if p.kind in (p.POSITIONAL_ONLY, p.POSITIONAL_OR_KEYWORD, p.KEYWORD_ONLY)]
+    names = [n for n, _ in named]
+    extras = [(n, d) for n, d in (tsig or []) if n not in names] if star_k else []
+    nreq = len([1 for _, d in named if d is inspect.Parameter.empty])
+    return dict(getter=g, named=named, star_args=star_a, star_kwargs=star_k, tsig=tsig, extras=extras, nreq=nreq)
+
+
+EMPTY = inspect.Parameter.empty
+
+
+def arg_value(name, default, phases):
+    """a value different from the default (and from what the default resolves to) for the parameter `name`"""
+    low = name.lower()
+    if 'phase' in low:
+        return phases[2] if 'prec' in low else phases[-1]
+    if isinstance(default, bool):
+        return not default
+    return ('ARG', name)
+
+
+def resolved_default(name, default, phases):
+    """what the getter hands on for a named parameter the caller left out (None phases are resolved to the first precipitate /
+    the matrix phase by kawin.thermo.utils._getPrecipitatePhase / _getMatrixPhase)"""
+    low = name.lower()
+    if default is None and 'phase' in low:
+        return phases[1] if 'prec' in low else phases[0]
+    return default
+
+
+def tokof(v):
+    if isinstance(v, tuple) and len(v) == 2 and v[0] == 'ARG':
+        return 'ARG:%s' % v[1]
+    if isinstance(v, str):
+        return v if (v and ' ' not in v) else repr(v).replace(' ', '_')
+    return repr(v).replace(' ', '')
+
+
+def same_arg(a, b):
+    if a is b:
+        return True
+    return isinstance(a, (str, bool)) and type(a) is type(b) and a == b
+
+
+def classify_typeerror(msg):
+    m = re.search(r"multiple values for (?:keyword )?argument '(\w+)'", msg)
+    if m:
+        return ('multiple', m.group(1))
+    m = re.search(r"unexpected keyword argument '(\w+)'", msg)
+    if m:
+        return ('unexpected', m.group(1))
+    if 'positional argument' in msg:
+        return ('toomany',)
+    m = re.search(r"missing a required argument: '(\w+)'", msg)
+    if m:
+        return ('missing', m.group(1))
+    return ('other', msg[:60])
+
+
+def probe_call(cls, nel, g, pos, kw):
+    """call the untrained getter on a recording mock thermodynamics; what the mock received"""
+    th = RecTherm(nel)
+    s = cls(th)
+    try:
+        r = getattr(s, g)(*pos, **kw)
+    except TypeError as e:
+        return dict(raised=classify_typeerror(str(e)), msg=str(e), calls=th.calls, result=None, phases=th.phases)
+    except Exception as e:
+        return dict(raised=('exception', type(e).__name__), msg=str(e), calls=th.calls, result=None, phases=th.phases)
+    return dict(raised=None, msg=None, calls=th.calls, result=r, phases=th.phases)
+
+
+def bind_thermo(cls, g, a, k):
+    """bind the call the mock received to the signature of the REAL thermodynamics method: (arguments, None) or (None, error)"""
+    tm = getattr(thermo_class(cls), g, None)
+    if tm is None:
+        return None, ('nomethod',)
+    try:
+        b = inspect.signature(tm).bind(None, *a, **k)
+    except TypeError as e:
+        return None, classify_typeerror(str(e))
+    d = dict(b.arguments)
+    d.pop(next(iter(inspect.signature(tm).parameters)), None)
+    return d, None
+
+
+MOCK_PHASES = RecTherm(2).phases
+
+
+def canonical_calls(spec):
+    """call forms of one getter: (form, positional values, keyword values, intended {thermodynamics parameter: value})"""
+    ph = MOCK_PHASES
+    val = {n: arg_value(n, d, ph) for n, d in spec['named'] + spec['extras']}
+    names = [n for n, _ in spec['named']]
+    req, opt = names[:spec['nreq']], names[spec['nreq']:]
+    ext = [n for n, _ in spec['extras']]
+    forms = [('default', [val[n] for n in req], {}, {n: val[n] for n in req})]
+    forms.append(('keyword', [val[n] for n in req], {n: val[n] for n in opt + ext}, {n: val[n] for n in names + ext}))
+    for n in opt + ext:
+        forms.append(('single-keyword:' + n, [val[n2] for n2 in req], {n: val[n]}, {n2: val[n2] for n2 in req + [n]}))
+    if opt:
+        forms.append(('positional-named', [val[n] for n in names], {}, {n: val[n] for n in names}))
+        forms.append(('positional-named+keyword-extras', [val[n] for n in names], {n: val[n] for n in ext}, {n: val[n] for n in names + ext}))
+    if spec['star_args'] and ext:
+        # the documented order: the getter's own parameters, then the remaining parameters of the thermodynamics method
+        for j in range(1, len(ext) + 1):
+            forms.append(('positional-extras:%d' % j, [val[n] for n in names + ext[:j]], {}, {n: val[n] for n in names + ext[:j]}))
+    return forms
+
+
+def forwarding_rows(cls, nel):
+    """per getter: how the untrained branch hands each named parameter / each further keyword argument on to the thermodynamics
+    method ('pos' | 'kw' | 'kw:<other name>' | 'drop'), read off the call a recording mock received for the all-keyword form"""
+    rows = []
+    for g in surrogate_getters(cls):
+        spec = getter_spec(cls, g)
+        form, pos, kw, intended = canonical_calls(spec)[1]
+        pr = probe_call(cls, nel, g, pos, kw)
+        target, hows, ehows = '?', [], []
+        if pr['raised'] is None and len(pr['calls']) == 1:
+            target, a, k, _tok = pr['calls'][0]
+            claimed = set()
+
+            def how(n):
+                v = intended[n]
+                for i, y in enumerate(a):
+                    if i not in claimed and same_arg(v, y):
+                        claimed.add(i)
+                        return 'pos'
+                if n in k and same_arg(v, k[n]):
+                    return 'kw'
+                other = [kk for kk, y in k.items() if same_arg(v, y)]
+                return 'kw:' + other[0] if other else 'drop'
+            hows = [(n, how(n)) for n, _ in spec['named']]
+            ehows = [(n, how(n)) for n, _ in spec['extras']]
+            # positional hand-over must keep the order of the getter's parameters
+            order = [n for n, h in hows if h == 'pos']
+            recv = [n for y in a for n in order if same_arg(intended[n], y)]
+            if recv != order:
+                target = '?reordered'
+        elif pr['raised'] is not None:
+            target = '?raises-' + '-'.join(pr['raised'])
+        else:
+            target = '?calls-%d' % len(pr['calls'])
+        rows.append((g, target, bool(spec['star_kwargs'] and spec['star_args']), hows, ehows, [n for n, _ in (spec['tsig'] or [])]))
+    return rows
+
+
+def lean_rows(name, doc, rows):
+    def pairs(l):
+        return '[' + ', '.join('(%s, %s)' % (lean_str(a), lean_str(b)) for a, b in l) + ']'
+    body = ',\n   '.join('(%s, %s, %s, %s, %s, [%s])' % (lean_str(g), lean_str(t), 'true' if st else 'false', pairs(h), pairs(e), ', '.join(lean_str(x) for x in ts))
+                         for g, t, st, h, e, ts in rows)
+    return ('/-- %s -/\ndef %s : List (String × String × Bool × List (String × String) × List (String × String) × List String) :=\n  [%s]\n'
+            % (doc, name, body))
+
+
 def lean_str(s):
     return '"' + s.replace('\\', '\\\\').replace('"', '\\"') + '"'
 
@@ -420,7 +602,8 @@ def build_tables():
         dw, dr, dz = extract_tables(lambda: _new_diff_plain(True), lambda m: list(DIFF_SLOTS), diff_get, diff_set)
         bt, bp = fallthrough_table(BinarySurrogate, 2)
         mt, mp = fallthrough_table(MulticomponentSurrogate, 3)
-    return dict(attrs=attrs, rec_ph=rec_ph, pw=pw, pr=pr, gW=gW, phW=phW, gR=gR, phR=phR, gZ=gZ, phZ=phZ, dw=dw, dr=dr, dz=dz,
+        bf, mf = forwarding_rows(BinarySurrogate, 2), forwarding_rows(MulticomponentSurrogate, 3)
+    return dict(bf=bf, mf=mf, attrs=attrs, rec_ph=rec_ph, pw=pw, pr=pr, gW=gW, phW=phW, gR=gR, phR=phR, gZ=gZ, phZ=phZ, dw=dw, dr=dr, dz=dz,
                 bg=surrogate_getters(BinarySurrogate), mg=surrogate_getters(MulticomponentSurrogate), bt=bt, bp=bp, mt=mt, mp=mp)
 
 
@@ -450,6 +633,10 @@ def render_tables(t):
              lean_strs('multiGetters', 'public getters of MulticomponentSurrogate', t['mg']),
              lean_pairs('multiFallthrough', 'untrained MulticomponentSurrogate: (getter, thermodynamics method called)', t['mt']),
              lean_pairs('multiPassThrough', 'untrained MulticomponentSurrogate: (getter, exactly one call, arguments and result handed through unchanged)', t['mp'], b),
+             lean_rows('binaryForwarding', 'untrained BinarySurrogate, argument forwarding: (getter, thermodynamics method called, takes *args/**kwargs, '
+                       '[(named parameter, handed on as "pos" | "kw" | "kw:<other name>" | "drop")], [(further keyword argument of the thermodynamics method, handed on as)], '
+                       'parameter names of the thermodynamics method of the same name)', t['bf']),
+             lean_rows('multiForwarding', 'untrained MulticomponentSurrogate, argument forwarding (same layout)', t['mf']),
              'end KawinV.Gen.C20\n']
     return '\n'.join(parts)
 
@@ -996,6 +1183,182 @@ def check_untrained(res, kind, cls, th, rng):
             res.violate('untrained-%s.%s-differs-from-thermodynamics' % (cname, g), 'untrained getter and thermodynamics.%s give different values' % g, desc,
                         observed=brief(out) if not isinstance(out, tuple) else [brief(o) for o in out],
                         required=brief(ref) if not isinstance(ref, tuple) else [brief(o) for o in ref])
+
+
+# ---------------------------------------------------------------- untrained branch: every argument is handed on
+def random_calls(spec, rng, n):
+    """random ways of calling one getter: (kind, positional values, keyword values, intended {parameter: value} or None for a
+    call that must be refused)"""
+    ph = MOCK_PHASES
+    val = {nm: arg_value(nm, d, ph) for nm, d in spec['named'] + spec['extras']}
+    names = [nm for nm, _ in spec['named']]
+    ext = [nm for nm, _ in spec['extras']]
+    out = []
+    for _ in range(n):
+        npos = rng.randint(spec['nreq'], len(names))
+        pos = [val[nm] for nm in names[:npos]]
+        kw, intended = {}, {nm: val[nm] for nm in names[:npos]}
+        nextra = 0
+        if npos == len(names) and spec['star_args'] and ext and rng.random() < 0.4:
+            nextra = rng.randint(1, len(ext))
+            pos += [val[nm] for nm in ext[:nextra]]
+            intended.update({nm: val[nm] for nm in ext[:nextra]})
+        rest = names[npos:] + ext[nextra:]
+        rng.shuffle(rest)
+        for nm in rest:
+            if rng.random() < 0.55:
+                kw[nm] = val[nm]; intended[nm] = val[nm]
+        kind = 'valid'
+        k = rng.random()
+        if k < 0.08 and npos > 0:                       # a keyword for a parameter already given by position
+            nm = rng.choice((names + ext)[:len(pos)])
+            kw[nm] = val[nm]; kind, intended = 'refused:multiple', None
+        elif k < 0.14:                                  # a keyword nobody knows
+            kw['zzz'] = ('ARG', 'zzz'); kind, intended = 'refused:unexpected', None
+        elif k < 0.18 and not spec['star_args'] and not kw:
+            pos = [val[nm] for nm in names] + [('ARG', 'surplus')]; kind, intended = 'refused:toomany', None
+        out.append((kind, pos, kw, intended))
+    return out
+
+
+def fw_line(tag, g, pos, kw):
+    return 'fw.call %s %s %d %s %d %s' % (tag, g, len(pos), ' '.join(tokof(v) for v in pos), len(kw), ' '.join('%s %s' % (k, tokof(v)) for k, v in kw.items()))
+
+
+def parse_fw(line):
+    t = Toks(line)
+    if not t.ok:
+        return {'bad': t.err}
+    kind = t.tok()
+    if kind == 'S':
+        assert t.tok() == 'err'
+        return {'serr': tuple(t.rest())}
+    assert kind == 'F'
+    pos = [t.tok() for _ in range(t.nat())]
+    kw = {}
+    for _ in range(t.nat()):
+        k = t.tok(); kw[k] = t.tok()
+    assert t.tok() == 'B'
+    if t.tok() == 'err':
+        return {'serr': None, 'pos': pos, 'kw': kw, 'berr': tuple(t.rest()), 'bound': None}
+    bound = {}
+    for _ in range(t.nat()):
+        k = t.tok(); bound[k] = t.tok()
+    return {'serr': None, 'pos': pos, 'kw': kw, 'berr': None, 'bound': bound}
+
+
+def forwarding_oracle(res, cname, g, form, pos, kw, intended, pr, spec, system='recording mock thermodynamics'):
+    """the property predicate on what the thermodynamics received: the method of the same quantity, called once, every argument
+    the caller supplied arrives under its own name with its own value, nothing is added, the result comes back as it is"""
+    desc = dict(surrogate=cname, getter=g, form=form, trained=False, thermodynamics=system,
+                positional=[tokof(v) for v in pos], keywords={k: tokof(v) for k, v in kw.items()})
+    res.count('forwarding:%s.%s' % (cname, g))
+    res.count('forwarding-form:' + form.split(':')[0])
+    if pr['raised'] is not None:
+        res.violate('untrained-%s.%s-%s-raises-%s' % (cname, g, 'positional-extras' if form.startswith('positional-extras') else form.split(':')[0], pr['raised'][0]),
+                    'the untrained getter raised for a call the thermodynamics method accepts: %s' % pr['msg'], desc, observed=pr['msg'], required='the call is handed on')
+        return
+    called = [c[0] for c in pr['calls']]
+    if called != [g]:
+        res.violate('untrained-%s.%s-calls-%s' % (cname, g, '+'.join(called) or 'nothing'),
+                    'the untrained branch of %s.%s calls thermodynamics.%s, not thermodynamics.%s once' % (cname, g, '/'.join(called) or 'nothing', g), desc,
+                    observed=called, required=[g])
+        return
+    _name, a, k, tok = pr['calls'][0]
+    desc['received'] = dict(positional=[tokof(v) for v in a], keywords={kk: tokof(v) for kk, v in k.items()})
+    if pr['result'] is not tok:
+        res.violate('untrained-%s.%s-does-not-return-the-thermodynamics-result' % (cname, g), 'result is not the object the thermodynamics call returned', desc)
+    bound, err = bind_thermo(CLASSES[cname], g, a, k)
+    if err is not None:
+        key = 'positional-extras-TypeError' if form.startswith('positional-extras') or (form == 'random' and len(pos) > len(spec['named'])) else 'forwarded-call-does-not-bind'
+        res.violate('untrained-%s.%s-%s' % (cname, g, key),
+                    'the call handed on by the untrained getter does not bind to thermodynamics.%s: %s (the same call made on the thermodynamics binds)' % (g, ' '.join(err)),
+                    desc, observed='TypeError ' + ' '.join(err), required={n: tokof(v) for n, v in intended.items()})
+        return
+    for n, v in intended.items():
+        if n not in bound:
+            res.violate('untrained-%s.%s-drops-argument-%s' % (cname, g, n),
+                        'the caller supplied %s=%s; the untrained branch does not hand it on, thermodynamics.%s uses its default' % (n, tokof(v), g), desc,
+                        observed='not received', required=tokof(v))
+        elif not same_arg(bound[n], v):
+            res.violate('untrained-%s.%s-changes-argument-%s' % (cname, g, n),
+                        'the caller supplied %s=%s; thermodynamics.%s received %s' % (n, tokof(v), g, tokof(bound[n])), desc,
+                        observed=tokof(bound[n]), required=tokof(v))
+    named = dict(spec['named'])
+    for n, v in bound.items():
+        if n in intended:
+            continue
+        if n in named and same_arg_or_eq(v, resolved_default(n, named[n], pr['phases'])):
+            continue                    # a named parameter left out: its (resolved) default
+        res.violate('untrained-%s.%s-adds-argument-%s' % (cname, g, n),
+                    'the caller did not supply %s; the untrained branch hands %s=%s to thermodynamics.%s' % (n, n, tokof(v), g), desc,
+                    observed=tokof(v), required='not supplied (the default of the thermodynamics method applies)')
+
+
+def same_arg_or_eq(a, b):
+    if same_arg(a, b):
+        return True
+    try:
+        return type(a) is type(b) and bool(a == b)
+    except Exception:
+        return False
+
+
+CLASSES = {}
+
+
+def check_forwarding(res, ctx, rng, nrandom):
+    """(a) recording mock thermodynamics under every getter of both surrogate classes: canonical call forms + random calls;
+    direct oracle on what the mock received, and the Lean model of the forwarding (generated tables) on the same calls"""
+    vlib.use_repo()
+    from kawin.thermo import BinarySurrogate, MulticomponentSurrogate
+    CLASSES.update(BinarySurrogate=BinarySurrogate, MulticomponentSurrogate=MulticomponentSurrogate)
+    lines, pend = [], []
+    for cls, nel, tag in ((BinarySurrogate, 2, 'B'), (MulticomponentSurrogate, 3, 'M')):
+        cname = cls.__name__
+        for g in surrogate_getters(cls):
+            spec = getter_spec(cls, g)
+            if spec['tsig'] is None:
+                res.violate('untrained-%s.%s-no-thermodynamics-method' % (cname, g), '%s has no method %s' % (thermo_class(cls).__name__, g), dict(surrogate=cname, getter=g))
+                continue
+            calls = [(f, p, k, i) for f, p, k, i in canonical_calls(spec)] + [('random' if kind == 'valid' else kind, p, k, i) for kind, p, k, i in random_calls(spec, rng, nrandom)]
+            for form, pos, kw, intended in calls:
+                pr = probe_call(cls, nel, g, pos, kw)
+                res.case(('forwarding', cname, g, form, tuple(tokof(v) for v in pos), tuple(sorted(kw))), True)
+                if intended is not None:
+                    forwarding_oracle(res, cname, g, form, pos, kw, intended, pr, spec)
+                else:
+                    res.count('forwarding-refused-call:' + form.split(':')[1])
+                lines.append(fw_line(tag, g, pos, kw))
+                pend.append((cname, g, form, pos, kw, pr, spec))
+    if not (ctx.driver_ok and lines):
+        return
+    answers = vlib.run_driver(PROP, lines)
+    for ans, (cname, g, form, pos, kw, pr, spec) in zip(answers, pend):
+        desc = dict(surrogate=cname, getter=g, form=form, positional=[tokof(v) for v in pos], keywords={k: tokof(v) for k, v in kw.items()})
+        r = parse_fw(ans)
+        res.count('forwarding-model-compared')
+        if 'bad' in r:
+            res.disagree('forwarding model error', desc, 'ok', r['bad']); continue
+        impl_serr = None if pr['raised'] is None else tuple(pr['raised'])
+        if r['serr'] is not None or impl_serr is not None:
+            if r['serr'] != impl_serr:
+                res.disagree('call refused by the getter', desc, impl_serr, r['serr'])
+            continue
+        if len(pr['calls']) != 1:
+            res.disagree('number of thermodynamics calls', desc, len(pr['calls']), 1); continue
+        name, a, k, _tok = pr['calls'][0]
+        named = dict(spec['named'])
+        def tr(t):       # the model's token for a parameter the caller left out -> what the getter resolves the default to
+            return tokof(resolved_default(t[2:], named.get(t[2:]), pr['phases'])) if t.startswith('D:') else t
+        if [tr(t) for t in r['pos']] != [tokof(v) for v in a] or {kk: tr(t) for kk, t in r['kw'].items()} != {kk: tokof(v) for kk, v in k.items()}:
+            res.disagree('call handed on to the thermodynamics', desc, dict(pos=[tokof(v) for v in a], kw={kk: tokof(v) for kk, v in k.items()}), dict(pos=r['pos'], kw=r['kw']))
+            continue
+        bound, err = bind_thermo(CLASSES[cname], g, a, k)
+        if (err is None) != (r['berr'] is None) or (err is not None and tuple(err) != r['berr']):
+            res.disagree('binding to the thermodynamics signature', desc, err, r['berr']); continue
+        if err is None and {kk: tr(t) for kk, t in r['bound'].items()} != {kk: tokof(v) for kk, v in bound.items()}:
+            res.disagree('arguments received by the thermodynamics method', desc, {kk: tokof(v) for kk, v in bound.items()}, r['bound'])
 
 
 def _guard(res, key, what, desc, fn):
